@@ -121,6 +121,10 @@ func localStructField(base ssa.Value, k int, depth int, load ssa.Instruction) ss
 			return nil // the struct's address escapes
 		}
 	}
+	// `x := *p; x.f = v`: the field store overrides the initial whole copy when it comes after it
+	if len(fieldStores) == 1 && len(whole) == 1 && whole[0].Block() == fieldStores[0].Block() && instrIndex(whole[0]) < instrIndex(fieldStores[0]) && setOnceBefore(al, fieldStores[0], load) {
+		return fieldStores[0].Val
+	}
 	switch {
 	case len(fieldStores) == 1 && len(whole) == 0:
 		if setOnceBefore(al, fieldStores[0], load) {
